@@ -869,6 +869,41 @@ def columns_rule(ctx: Ctx) -> None:
            why="find() returns -1 when there is no comma, and the slice then silently drops the last character (single-measure note data)")
 
 
+def keysound_extraction(ctx: Ctx) -> None:
+    """C07/C08: _extract_keysound_indices: while the row has a '[': the number between the first '[' and the first ']' is recorded at column
+    (position of the '[') - 1 whenever a list was given, and exactly that bracket group is removed; a row without '[' is returned as it is.
+    Every call does this work itself (no path answers for a bracketed row without running the extraction)."""
+    p = ctx.p
+    f = p.func(f"{ND}._extract_keysound_indices")
+    line, ki = f.param_names()[:2]
+    from .tables import Dec, closed_text, judge as tjudge, sums_of as tsums
+    sums = tsums(ctx, f)
+    HAS, NONE = f"'[' in {line}", f"{ki} is None"
+    OB, CB = f"{line}.index('[')", f"{line}.index(']')"
+
+    def out(s_):
+        eff = []
+        for e in s_.effects:
+            if e.kind in ("store", "aug", "delete", "expr"):
+                eff.append(closed_text(s_, e, keep=[line, ki]))
+            elif e.kind == "bind" and isinstance(e.target, ast.Name) and e.target.id == line:
+                eff.append(closed_text(s_, e, keep=[line, ki]))
+        k, v = s_.terminal()
+        return tuple(eff) + ((k + " " + (ast.unparse(v) if v is not None else "None")),)
+
+    def spec(a):
+        if not a[HAS]:
+            return (f"return {line}",)
+        cut = f"{line} := {line}[:{OB}] + {line}[{CB} + 1:]"
+        if a[NONE]:
+            return (cut, f"return {line}")
+        return (f"{ki}[{OB} - 1] = int({line}[{OB} + 1:{CB}])", cut, f"return {line}")
+
+    tjudge(ctx, "R-TABLE", f, "every bracket group of the row is extracted by this call: index recorded at (position of '[') - 1 when a list is given, the group removed; "
+           "a row without brackets is returned unchanged", [Dec(dict(s_.plain_assign()), out(s_), s_) for s_ in sums], [HAS, NONE], spec,
+           why="the caller's keysound_indices list is an out-parameter: a path that returns the stripped row without filling it (a cached answer) loses the keysound indices of that row")
+
+
 def grouping_guards(ctx: Ctx) -> None:
     """C09.5: the documented pairing rules as guard sets of join_heads_to_tails_ / join_head_to_tail / maybe_buffer."""
     p = ctx.p
